@@ -368,7 +368,7 @@ theorem patchSize_header (A B name : Bytes) (wide : Bool) (s s' : Nat) (delta : 
     unfold patchSize
     simp only [hr, length_toBE, Nat.lt_irrefl, ↓reduceIte, hof]
     have h1 : ¬ s = 1 := by omega
-    simp only [h1, ↓reduceIte, packBE_ok 4 s delta s' .struct_ hd (by simpa using hfit')]
+    simp only [h1, ↓reduceIte, packBE_ok 4 s delta s' .mutagen hd (by simpa using hfit')]
     have := writeAt_mid A (toBE 4 s) (name ++ B) (toBE 4 s') (by simp)
     simp only [List.append_assoc] at this ⊢
     rw [this]
@@ -387,7 +387,7 @@ theorem patchSize_header (A B name : Bytes) (wide : Bool) (s s' : Nat) (delta : 
     unfold patchSize
     simp only [hr, hr2, length_toBE, Nat.lt_irrefl, ↓reduceIte, hof1]
     rw [List.drop_left' hn]
-    simp only [length_toBE, Nat.lt_irrefl, ↓reduceIte, hof, packBE_ok 8 s delta s' .struct_ hd (by simpa using hfit')]
+    simp only [length_toBE, Nat.lt_irrefl, ↓reduceIte, hof, packBE_ok 8 s delta s' .mutagen hd (by simpa using hfit')]
     have := writeAt_mid (A ++ toBE 4 1 ++ name) (toBE 8 s) B (toBE 8 s') (by simp)
     simp only [List.append_assoc, List.length_append, length_toBE, hn] at this ⊢
     rw [show A.length + (4 + 4) = A.length + 8 by omega] at this
@@ -1175,5 +1175,18 @@ def MediaClear (parents atoms : List PAtom) (o old : Nat) (delta : Int) (e n : N
 
 instance (parents atoms : List PAtom) (o old : Nat) (delta : Int) (e n : Nat) :
     Decidable (MediaClear parents atoms o old delta e n) := by unfold MediaClear; infer_instance
+
+/-- `updateParents` (the form used in `parent_sizes`) is the `__update_parents` part of `saveAt` -/
+theorem parentSteps_updateParents (ps : List PAtom) (delta : Int) (hd : delta ≠ 0) (g g' : Bytes)
+    (h : updateParents g (ps.map (·.offset)) delta = .ok g') :
+    runSteps (parentSteps ps delta) g = (none, g') := by
+  simp only [parentSteps, hd, ↓reduceIte]
+  induction ps generalizing g with
+  | nil => simp only [List.map_nil, updateParents, Except.ok.injEq] at h; subst h; rfl
+  | cons p r ih =>
+    simp only [List.map_cons, updateParents, runSteps] at h ⊢
+    cases hp : patchSize g p.offset delta with
+    | error e => rw [hp] at h; cases h
+    | ok g1 => rw [hp] at h; simp only at h ⊢; exact ih g1 h
 
 end Mutagen.Mp4C
